@@ -209,6 +209,11 @@ def finish (a : LoadArgs) (cur : Time) (s : LState) (evs : List Event) : Flow ×
 def enqueue (ts : Time) (kv : Regs) (s : LState) : LState :=
   { s with ts := some ts, future := s.future ++ [(ts, kv)], st := .streaming }
 
+/-- `self._ts is None or ts >= self._ts` as the event is about to be delivered: (repair d) taken
+before `_ts` was moved to this record / (old) `_ts` still is the last delivered timestamp -/
+def deliverOk (fx : Fix) (s s1 : LState) (ts : Time) : Bool :=
+  if fx.d then tsLe s.ts ts else tsLe s1.ts ts
+
 /-- the body of the `for` loop for a record with a timestamp and a payload (`js is not None`) -/
 def procReal (fx : Fix) (a : LoadArgs) (ts : Time) (p : Payload) (cur : Time) (s : LState)
     (evs : List Event) : Flow × LState × List Event :=
@@ -219,7 +224,7 @@ def procReal (fx : Fix) (a : LoadArgs) (ts : Time) (p : Payload) (cur : Time) (s
   | .bad => (.cont, s1, evs)
   | .regs kv =>
     if kv.isEmpty then finish a cur s1 evs
-    else if (if fx.d then tsLe s.ts ts else tsLe s1.ts ts) then
+    else if deliverOk fx s s1 ts then
       finish a cur (enqueue ts kv s1) (evs ++ [(ts, kv)])
     else finish a cur { s1 with st := .streaming } evs         -- out of order: ignored
 
